@@ -165,12 +165,14 @@ theorem canonical_reread_partial (bs : Bytes) (m : List Def) (h : Valid G m = tr
 
 /-! ### non-vacuity and negation witnesses -/
 
-/-- a module with a nested block / br_table body, a memory, data, an export is `Valid` -/
+/-- a module with a nested block / loop / br_table body, a memory load with memarg, a memory,
+    an active data segment and an export is `Valid` (ids: 2 block, 3 loop, 18 local.get, 9 br_table,
+    6 end, 31 i32.load, 60 i32.const; types: 0 i32, 3 f64, 8 emptyblock) -/
 example : Valid G
     [.type ⟨[0], [0]⟩, .memory ⟨1, none⟩, .export ⟨[0x66], 0, 0⟩,
-     .func ⟨0, [0, 0, 3], [⟨2, [.ty 8]⟩, ⟨3, [.ty 8]⟩, ⟨17, [.idx 0]⟩, ⟨9, [.labels [1, 0]]⟩, ⟨6, []⟩, ⟨6, []⟩,
-                            ⟨17, [.idx 0]⟩]⟩,
-     .data ⟨some (0, [⟨G.endId + 0, []⟩].drop 1), [1, 2, 3]⟩] = true := by decide +kernel
+     .func ⟨0, [0, 0, 3], [⟨2, [.ty 8]⟩, ⟨3, [.ty 8]⟩, ⟨18, [.idx 0]⟩, ⟨9, [.labels [1, 0]]⟩, ⟨6, []⟩, ⟨6, []⟩,
+                            ⟨18, [.idx 0]⟩, ⟨31, [.u32 2, .u32 64]⟩]⟩,
+     .data ⟨some (0, [⟨60, [.int 8]⟩]), [1, 2, 3]⟩] = true := by decide +kernel
 
 /-- open finding (f32 signalling NaN): the reader does not return the constant it was given -/
 example : rArg G false 0x43 .f32 [0x00, 0x00, 0xA0, 0x7F] = .ok (.raw [0x00, 0x00, 0xE0, 0x7F], []) := by
